@@ -448,7 +448,7 @@ def shards(tier):
 
 
 def run_shard(spec, ctx):
-    run_given(descriptions(), body, ctx, ctx.pick(500, 5000))
+    run_given(descriptions(), body, ctx, ctx.pick(500, 4000))
 
 
 def replay(data, col):
